@@ -37,4 +37,4 @@ def run(ctx):
 def replay(ctx, rep):
     r = rep['replay']
     ctx.map(histories.run_history, [{'prop': PROPERTY, 'seed': r.get('case_seed', 0), 'cfg': r['cfg'], 'ops': r['ops'],
-                                     'monitors': MONITORS}])
+                                     'monitors': MONITORS, 'tolerate_stale_writer': True}])
